@@ -245,8 +245,11 @@ def _slice(res, L, t, part, pop, frac):
                  {"exc": repr(gm.exc)}):
         g = np.asarray(gm.value, dtype=float)
         if g.shape == (nr, nc):
+            # inexact weights: the root of a last-bit variance (1e-8) times the population
+            atol = 1e-9 if not V.inexact else 4e-7 * max(1.0, abs(pop * (frac if frac == frac
+                                                                        else 1.0)))
             ok, det = cmp.same(np.where(judged_moe, g, 0), np.where(judged_moe, expm, 0),
-                               rtol=1e-9, atol=1e-9)
+                               rtol=1e-9 if not V.inexact else 1e-7, atol=atol)
             res.check("population_counts_moe", ok, "population_counts_moe/%s" % direction, det)
     fin = expc[~np.isnan(expc)]
     return bool(np.any((fin > 0) & (fin < pop * frac))) if fin.size and frac == frac else False
@@ -307,8 +310,11 @@ def _strand(res, L, part, pop, frac):
         g = np.asarray(gm.value, dtype=float)
         e = np.array(expm)
         if g.shape == e.shape:
-            ok, det = cmp.same(np.where(isdiff, 0, g), np.where(isdiff, 0, e), rtol=1e-9,
-                               atol=1e-9)
+            inexact = not cases.weights_exact(L.spec)
+            atol = 1e-9 if not inexact else 4e-7 * max(1.0, abs(pop * (frac if frac == frac
+                                                                      else 1.0)))
+            ok, det = cmp.same(np.where(isdiff, 0, g), np.where(isdiff, 0, e),
+                               rtol=1e-9 if not inexact else 1e-7, atol=atol)
             res.check("strand_population", ok, "strand/population_counts_moe%s" % (
                 "/date" if date else ""), det)
     fin = np.array([x for x in expc if x == x])
